@@ -65,6 +65,8 @@ DIRECTED_SOUND = [
     ("defset-name", "class A; defset list<A> S = { def q : A; }  def E { list<A> y = S; }"),
     ("named-argument", "class A<int x>; class B : A<x = 1>;"),
 ]
+# well-formed: inheritance graphs in which an ancestor is reached twice before the parent that declares the field
+DIRECTED_SOUND += [(d["key"], d["text"]) for d in tdgen.diamond_cases()]
 DIRECTED_COMPLETE = [
     ("classvalue-undefined-class", "def d { int x = Foo<1>.y; }", [16, 19], "ClassNotFound"),
 ]
@@ -124,7 +126,9 @@ def run(ctx):
         exe = None
         fails.append({"kind": "extraction", "error": str(ex)[-1500:]})
     n = 80 if ctx.quick else 1500
-    progs = [tdgen.generate(ctx.rng, size=ctx.rng.choice([2, 3, 5, 8] if ctx.quick else [3, 5, 8, 12])) for _ in range(n)]
+    # includes inside block bodies: thorough tier only (see checks/C05.py)
+    progs = [tdgen.generate(ctx.rng, size=ctx.rng.choice([2, 3, 5, 8] if ctx.quick else [3, 5, 8, 12]),
+                            feats=None if ctx.quick else {"include-in-block": True}) for _ in range(n)]
     wss = [p.workspace() for p in progs]
     bridge_stats = {}
     I, C, M = batches(bindir, exe, wss, fails=fails, stats=bridge_stats)
